@@ -10,6 +10,7 @@ mod probe7;
 mod probe8;
 mod probe9;
 mod probe10;
+mod probe11;
 use cosmwasm_std::{coin, Coin, Decimal, Uint128};
 use cw_multi_test::Executor;
 use mantra_dex_std::farm_manager as fm;
@@ -290,6 +291,9 @@ fn main() {
     if which.iter().any(|w| w == "c20") { probe8::c20(); }
     if which.iter().any(|w| w == "c15") { probe9::run(); }
     if which.iter().any(|w| w == "c08") { let d: usize = which.iter().filter_map(|x| x.parse().ok()).next().unwrap_or(3); probe10::run(d); }
+    if which.iter().any(|w| w == "c13ss") { probe11::c13_ss(); }
+    if which.iter().any(|w| w == "dbg") { probe11::dbg(); }
+    if which.iter().any(|w| w == "c10curve") { probe11::c10_curve(); }
     if which.iter().any(|w| w == "partest") { probe4::partest(); }
     if which.iter().any(|w| w == "bfs") { let d: usize = which.iter().filter_map(|x| x.parse().ok()).next().unwrap_or(3); probe4::run(d); }
     let _ = Uint128::zero();
